@@ -140,7 +140,7 @@ func runC15(c *RuleCtx) {
 			c.Check(ok && len(callers) > 0, "R15.3", callee, "called only by push", nil, strings.Join(callers, ","), "also from "+strings.Join(extra, ","))
 		}
 		// urgent selects the class
-		urgent := AtomBool("urgent", func(v *V) bool { return v.Kind == "var" && v.Name == "urgent" })
+		urgent := AtomBool("urgent", isParam(f, 1))
 		for _, cs := range p.Sites(f, true, "(*priorityQueue).PriorityPush") {
 			ok, why := p.DomAny(f, cs.Call, AtomWant{urgent, true})
 			c.Check(ok, "R15.3", f.Name, "urgent class only for urgent pushes", cs.Call, why, why)
@@ -149,7 +149,7 @@ func runC15(c *RuleCtx) {
 			ok, why := p.DomAny(f, cs.Call, AtomWant{urgent, false})
 			c.Check(ok, "R15.3", f.Name, "normal class only for normal pushes", cs.Call, why, why)
 		}
-		block := AtomBool("block", func(v *V) bool { return v.Kind == "var" && v.Name == "block" })
+		block := AtomBool("block", isParam(f, 2))
 		returnsIn(f, func(r *ast.ReturnStmt) {
 			if len(r.Results) != 1 {
 				return
@@ -170,7 +170,7 @@ func runC15(c *RuleCtx) {
 			}
 		})
 		// non-blocking full push returns the error: every path with full && !block returns ErrQueueFull
-		cut := edgeCut(g.AtomEdges(full, false), g.AtomEdges(block, true), g.AtomEdges(closed, true))
+		cut := g.CutAny(AtomWant{full, false}, AtomWant{block, true}, AtomWant{closed, true})
 		ok, _ := g.MustPass(g.Entry(), PassOpts{Cut: cut}, func(n ast.Node) bool {
 			r, ok := n.(*ast.ReturnStmt)
 			return ok && len(r.Results) == 1 && strings.HasSuffix(p.R(f).Val(r.Results[0]).Name, "ErrQueueFull")
